@@ -374,7 +374,7 @@ def m_canon(mpool):
     return tuple(out)
 
 
-def battery(pool, mpool):
+def battery(pool, mpool, parse=True):
     """observations on every cell of the pool, each twice; returns (digest, problems)"""
     from pytoniq_core.boc import Cell
     h = hashlib.blake2b(digest_size=12)
@@ -415,7 +415,62 @@ def battery(pool, mpool):
                                  f'reachable cells (entries leaked between calls)' if len(keys) > len(reach) else
                                  f'cell #{idx}: order() misses cells')
             h.update(repr(o).encode())
+    # parsing is a function of the input: the same immutable cells / bytes parse to the same values, now and whenever the
+    # battery ran before in this process (whatever was parsed, edited or serialised in between)
+    # (run on the first arrival at each canonical state: ~45 000 times per search, interleaved with every event kind)
+    if parse:
+        for name, val in parse_battery().items():
+            base = _PARSE_BASE.setdefault(name, val)
+            if val != base:
+                probs.append(f'parser result for the fixed input "{name}" differs from an earlier parse of the same input: {str(val)[:300]} vs {str(base)[:300]}')
     return h.hexdigest(), probs
+
+
+_PARSE_INPUTS = {}
+
+
+def parse_inputs():
+    """immutable inputs (cells / bytes written by the reference encoders) for the parse battery, built once per process"""
+    if _PARSE_INPUTS:
+        return _PARSE_INPUTS
+    from . import c17, c15, c14
+    b, r = c17.enc_stack([['tuple', []], ['tuple', [c17.I(7)]], ['tuple', [c17.I(1), c17.I(2)]], c17.I(1 << 70), ['null']], False)
+    _PARSE_INPUTS['vmstack'] = to_lib(RC.RCell(b, r))
+    h = c15.headers()[2]
+    m = dict(c15.placements(h, c15.inits()[32], c15.body_cell(40, 1, 0), 0))
+    _PARSE_INPUTS['message'] = to_lib(next(iter(m.values())))
+    ib, ir = c15.enc_init(c15.inits()[32])
+    _PARSE_INPUTS['stateinit'] = to_lib(RC.RCell(ib, ir))
+    eb, er = c15.enc_extra({'3': 9, '70000': 1 << 200})
+    _PARSE_INPUTS['currencies'] = to_lib(RC.RCell(RBITS.coins(12345) + eb, er))
+    _PARSE_INPUTS['dict'] = to_lib(dict_root())
+    _PARSE_INPUTS['tl'] = c14.ref_schema().encode({'@type': 'adnl.message.query', 'query_id': bytes(range(32)).hex(),
+                                                   'query': {'@type': 'dht.ping', 'random_id': 0x1122334455667788}}, True)
+    return _PARSE_INPUTS
+
+
+def parse_battery():
+    """the library's parsers on fixed immutable inputs: -> {name: structural description of the result}"""
+    from pytoniq_core.boc import HashMap
+    from pytoniq_core.tlb.vm_stack import VmStack
+    from pytoniq_core.tlb.transaction import MessageAny
+    from pytoniq_core.tlb.account import StateInit
+    from pytoniq_core.tlb.block import CurrencyCollection
+    from .common import deep_repr
+    from . import c14
+    inp = parse_inputs()
+    out = {}
+    out['vmstack'] = deep_repr(VmStack.deserialize(inp['vmstack'].begin_parse()))
+    out['message'] = deep_repr(MessageAny.deserialize(inp['message'].begin_parse()))
+    out['stateinit'] = deep_repr(StateInit.deserialize(inp['stateinit'].begin_parse()))
+    out['currencies'] = deep_repr(CurrencyCollection.deserialize(inp['currencies'].begin_parse()))
+    out['dict'] = deep_repr(HashMap.parse(inp['dict'].begin_parse(), 8, None, lambda s: s.load_uint(16)))
+    out['load_dict'] = deep_repr(to_lib(RC.RCell('1', (dict_root(),))).begin_parse().load_dict(8, None, lambda s: s.load_uint(16)))
+    out['tl'] = deep_repr(c14.lib_registry().deserialize(inp['tl'], boxed=True))
+    return out
+
+
+_PARSE_BASE = {}
 
 
 def run_history(kind, hist):
@@ -465,7 +520,7 @@ def case_history(rec, kind, hist, use_memo=True):
     pool, mpool = res['pool'], res['mpool']
     canon = m_canon(mpool)
     try:
-        dig, probs = battery(pool, mpool)
+        dig, probs = battery(pool, mpool, parse=(kind, canon) not in MEMO or not use_memo)
     except Exception as e:
         rec.violation('battery-raises', f'pool {kind}, history {hist}: observer raised {exc_name(e)}: {e}', 'case_history', args)
         return None
